@@ -37,4 +37,21 @@ theorem Tracker_Run : Generated.fp_drpcctx_tracker_Tracker_Run = Expected.fp_drp
 theorem Tracker_track : Generated.fp_drpcctx_tracker_Tracker_track = Expected.fp_drpcctx_tracker_Tracker_track := by decide
 theorem Tracker_Wait : Generated.fp_drpcctx_tracker_Tracker_Wait = Expected.fp_drpcctx_tracker_Tracker_Wait := by decide
 
+/-! constructors, accessors and small helpers -/
+theorem x_drpcmanager_manager_New : Generated.fp_drpcmanager_manager_New = Expected.fp_drpcmanager_manager_New := by decide
+theorem x_drpcmanager_manager_Manager_Closed : Generated.fp_drpcmanager_manager_Manager_Closed = Expected.fp_drpcmanager_manager_Manager_Closed := by decide
+theorem x_drpcmanager_manager_isConnectionReset : Generated.fp_drpcmanager_manager_isConnectionReset = Expected.fp_drpcmanager_manager_isConnectionReset := by decide
+theorem x_drpcmanager_streambuf_streamBuffer_init : Generated.fp_drpcmanager_streambuf_streamBuffer_init = Expected.fp_drpcmanager_streambuf_streamBuffer_init := by decide
+theorem x_drpcconn_conn_Conn_Close : Generated.fp_drpcconn_conn_Conn_Close = Expected.fp_drpcconn_conn_Conn_Close := by decide
+theorem x_drpcconn_conn_Conn_Closed : Generated.fp_drpcconn_conn_Conn_Closed = Expected.fp_drpcconn_conn_Conn_Closed := by decide
+theorem x_drpcconn_conn_Conn_Unblocked : Generated.fp_drpcconn_conn_Conn_Unblocked = Expected.fp_drpcconn_conn_Conn_Unblocked := by decide
+theorem x_drpcconn_conn_New : Generated.fp_drpcconn_conn_New = Expected.fp_drpcconn_conn_New := by decide
+theorem x_drpcconn_conn_NewWithOptions : Generated.fp_drpcconn_conn_NewWithOptions = Expected.fp_drpcconn_conn_NewWithOptions := by decide
+theorem x_drpcserver_server_New : Generated.fp_drpcserver_server_New = Expected.fp_drpcserver_server_New := by decide
+theorem x_drpcserver_server_NewWithOptions : Generated.fp_drpcserver_server_NewWithOptions = Expected.fp_drpcserver_server_NewWithOptions := by decide
+theorem x_drpcserver_util_isTemporary : Generated.fp_drpcserver_util_isTemporary = Expected.fp_drpcserver_util_isTemporary := by decide
+theorem x_drpcctx_tracker_NewTracker : Generated.fp_drpcctx_tracker_NewTracker = Expected.fp_drpcctx_tracker_NewTracker := by decide
+theorem x_drpcctx_tracker_Tracker_Cancel : Generated.fp_drpcctx_tracker_Tracker_Cancel = Expected.fp_drpcctx_tracker_Tracker_Cancel := by decide
+theorem x_drpcenc_marshal_MarshalAppend : Generated.fp_drpcenc_marshal_MarshalAppend = Expected.fp_drpcenc_marshal_MarshalAppend := by decide
+
 end Drpc.Tie.Manager
